@@ -1,4 +1,69 @@
-From Coq Require Import ZArith.
-From Tulz Require Import SubjectModel.
-Theorem placeholder_C05 : 1 = 1. Proof. reflexivity. Qed.
-Print Assumptions placeholder_C05.
+(* Properties_C05.v — Subject delivers to exactly the live, unmuted observers, in order.
+   Only statements, each closed by [exact <lemma of SubjectProofs>], and Print Assumptions. *)
+From Coq Require Import List ZArith Bool Lia.
+From Tulz Require Import Common SubjectModel SubjectSpec SubjectProofs.
+Import ListNotations.
+Local Open Scope Z_scope.
+
+(* the pointer-level model of Subject / Subscription / Observer has exactly the observable
+   behaviour of the specification on plain subscription records, for every history of
+   subscribe, unsubscribe (via handle or subject), mute, unmute, invalidate, handle moves,
+   notify and Subject destruction (with or without re-entrant callbacks): same invocations,
+   same isValid()/isMuted() of every handle after every operation, and
+   Subject::unsubscribe(handle) throws exactly for stale, cleared and foreign handles, in
+   which case nothing changes (a_step, case OSubjUnsub) *)
+Theorem C05_refines_spec : forall scripts fuel nsubj ops,
+  c_trace true scripts fuel (world0 nsubj) ops = a_trace scripts fuel (aworld0 nsubj) ops.
+Proof. exact subject_refines_spec. Qed.
+Print Assumptions C05_refines_spec.
+
+(* THE delivery property, on the specification: in every reachable world, if the observers
+   subscribed to Subject k do not change the world from their callbacks, notify(arg) invokes
+   exactly the subscriptions that are valid and not muted, each once, in subscription order,
+   each with arg; afterwards exactly the invalidated subscriptions have been removed, and
+   nothing else has changed *)
+Theorem C05_notify_delivers : forall scripts fuel fuel' nsubj ops w k s arg,
+  a_exec scripts fuel (aworld0 nsubj) ops = Some w ->
+  nth_error (asubjects w) k = Some s ->
+  (forall r, In r (subs s) -> nth (a_script r) scripts [] = []) ->
+  a_notify scripts (S fuel') w k arg =
+    Ok (mkAW (list_set (asubjects w) k (mkAS (filter a_valid (subs s)) (acounter s))) (ahandles w) (anext w)
+             (rev (map (fun r => (a_obs r, arg)) (filter (fun r => a_valid r && negb (a_muted r)) (subs s)))
+              ++ acalls w)).
+Proof. exact notify_delivers. Qed.
+Print Assumptions C05_notify_delivers.
+
+(* an observer that has been unsubscribed or invalidated is never invoked again, whatever
+   happens afterwards (callbacks included) *)
+Theorem C05_never_again : forall scripts fuel nsubj ops1 ops2 w1 w2 o,
+  a_exec scripts fuel (aworld0 nsubj) ops1 = Some w1 ->
+  a_exec scripts fuel w1 ops2 = Some w2 ->
+  (o < anext w1)%nat ->
+  (forall k s r, nth_error (asubjects w1) k = Some s -> In r (subs s) -> a_obs r = o -> a_valid r = false) ->
+  exists new, acalls w2 = new ++ acalls w1 /\ forall arg, ~ In (o, arg) new.
+Proof. exact never_again. Qed.
+Print Assumptions C05_never_again.
+
+(* every observer object is destroyed exactly once: never twice, and between operations the
+   objects still alive are exactly those owned by a subscription list (so unsubscription,
+   lazy removal and Subject destruction each destroy what they remove) *)
+Theorem C05_destroyed_once : forall scripts fuel nsubj ops w,
+  c_exec true scripts fuel (world0 nsubj) ops = Some w ->
+  NoDup (frees_of (log w)) /\
+  forall o ob, nth_error (heap w) o = Some ob ->
+    (o_alive ob = true <-> subscribed w o) /\ (o_alive ob = false <-> In o (frees_of (log w))).
+Proof. exact destroyed_once. Qed.
+Print Assumptions C05_destroyed_once.
+
+Example C05_nonvacuous :
+  map (fun x => match x with Done v => (v_ret v, v_calls v, v_handles v) | _ => ([], [], []) end)
+      (c_trace true [] 6 (world0 2)
+         [OAct (ASub 0 0); OAct (ASub 0 0); OAct (ASub 1 0); OAct (AMute 1); OAct (ANotify 0 5);
+          OAct (AInval 0); OAct (AUnmute 1); OAct (ANotify 0 6); OSubjUnsub 0 2; OSubjUnsub 0 0; OMove 0 1; OAct (ANotify 0 7)])
+  = [([], [], [Some false]); ([], [], [Some false; Some false]); ([], [], [Some false; Some false; Some false]);
+     ([], [], [Some false; Some true; Some false]); ([], [(0%nat, 5)], [Some false; Some true; Some false]);
+     ([], [], [Some false; Some true; Some false]); ([], [], [Some false; Some false; Some false]);
+     ([], [(1%nat, 6)], [None; Some false; Some false]); ([1], [], [None; Some false; Some false]);
+     ([1], [], [None; Some false; Some false]); ([], [], [Some false; None; Some false]);
+     ([], [(1%nat, 7)], [Some false; None; Some false])].
+Proof. vm_compute. reflexivity. Qed.
